@@ -1073,8 +1073,14 @@ def _check_form(f, case, b, bound, stage):
                     _expect_reg("ModRM.rm", ("r", base[0], base[1]), rm | (F.B << 3), F, mode, what)
                 else:
                     _expect_reg("ModRM.reg", ("r", base[0], base[1]), reg | (F.R << 3), F, mode, what)
-                if m.seg not in (0, 1):
-                    raise Mismatch("operand-mismatch:mem:segment-es-fixed", what + ": es:[reg] cannot be overridden, segment %d accepted" % m.seg)
+                if o["memSegment"] == "es":
+                    # movdir64b / enqcmd destination: always ES
+                    if m.seg not in (0, 1):
+                        raise Mismatch("operand-mismatch:mem:segment-es-fixed", what + ": es:[reg] cannot be overridden, segment %d accepted" % m.seg)
+                else:
+                    # umonitor: ds:[reg], an ordinary overridable data segment
+                    if _eff_seg(m.seg, None, mode, asz) != _eff_seg(F.seg, None, mode, asz):
+                        raise Mismatch("operand-mismatch:mem:segment", what + ": segment %s requested, prefix %s present" % (X._SEG[m.seg], X._SEG[F.seg]))
             else:
                 raise Inconclusive("implicit address operand %s" % rn)
         elif role is None:
